@@ -151,3 +151,20 @@ pub open spec fn level_ok(a1: &AuxiliaryData, comps: Seq<pavex_bp_schema::Compon
     &&& forall |k: int| 0 <= k < q0.len() ==> #[trigger] q1[k] == q0[k]
     &&& forall |m: int| 0 <= m < origin.len() ==> item_ok(&#[trigger] q1[q0.len() + m], comps, lens, origin[m], chain0, obs0, scope)
 }
+
+/// the part of `level_ok` that survives everything that happens later (other blueprints being processed): what was recorded for
+/// the routes of this level, and what the ids denote
+pub open spec fn level_routes_ok(a1: &AuxiliaryData, comps: Seq<pavex_bp_schema::Component>, chain0: Seq<UserComponentId>, obs0: Seq<UserComponentId>, lens: Seq<int>) -> bool {
+    &&& lens.len() == comps.len()
+    &&& forall |j: int| 0 <= j < comps.len() && (#[trigger] comps[j]) is Route ==>
+            route_ok(a1, id_at(lens[j]), chain0 + mw_before(comps, lens, j), obs0 + obs_before(comps, lens, j))
+    &&& forall |j: int| 0 <= j < comps.len() ==> denotes(a1, lens[j], &#[trigger] comps[j])
+}
+pub proof fn level_routes_stable(a: &AuxiliaryData, b: &AuxiliaryData, comps: Seq<pavex_bp_schema::Component>, chain0: Seq<UserComponentId>, obs0: Seq<UserComponentId>, lens: Seq<int>)
+    requires grows(a, b), level_routes_ok(a, comps, chain0, obs0, lens)
+    ensures level_routes_ok(b, comps, chain0, obs0, lens)
+{
+    assert forall |j: int| 0 <= j < comps.len() && (#[trigger] comps[j]) is Route implies
+        route_ok(b, id_at(lens[j]), chain0 + mw_before(comps, lens, j), obs0 + obs_before(comps, lens, j)) by { known_handler_stable(a, b, id_at(lens[j])); }
+    assert forall |j: int| 0 <= j < comps.len() implies denotes(b, lens[j], &#[trigger] comps[j]) by { denotes_stable(a, b, lens[j], &comps[j]); }
+}
